@@ -17,43 +17,9 @@ def KernelOk [Zero R] [Add R] [Mul R] [Neg R] (X Y : Arr R) (xa xb : List Nat) :
   ∃ c, tensordotViaFused X Y (freeAxes X.ndim xa) xa xb (freeAxes Y.ndim xb) = .ok c
     ∧ SameView c (tensordotBlockwise X Y (freeAxes X.ndim xa) xa xb (freeAxes Y.ndim xb))
     ∧ c.sectors.Nodup
+    ∧ List.Forall₂ SizeLe c.indices (without X.indices xa ++ without Y.indices xb)
     ∧ ∀ K V, alookup c.blocks K = some V →
         Arr.blockShape? (without X.indices xa ++ without Y.indices xb) K = some V.shape
-
-/-- shapes of the fused strategy's result for operands of any kind with synced signs -/
-theorem viaFused_synced_shape [AddCommMonoid R] [Mul R] [Neg R] (X Y : Arr R) (xa xb : List Nat)
-    (hvX : ValidP.Valid X) (hvY : ValidP.Valid Y) (hpX : X.phases = []) (hpY : Y.phases = [])
-    (hsym : X.sym = Y.sym) (hc : ValidP.contractibleB X Y xa xb = true)
-    (hnA : xa.Nodup) (hnB : xb.Nodup) (hA : ∀ x ∈ xa, x < X.ndim) (hB : ∀ x ∈ xb, x < Y.ndim)
-    (hneK : xa ≠ []) (hneL : freeAxes X.ndim xa ≠ []) (hneR : freeAxes Y.ndim xb ≠ []) (c : Arr R)
-    (hc0 : tensordotViaFused X Y (freeAxes X.ndim xa) xa xb (freeAxes Y.ndim xb) = .ok c) :
-    ∀ K V, alookup c.blocks K = some V →
-      Arr.blockShape? (without X.indices xa ++ without Y.indices xb) K = some V.shape := by
-  cases hbl : ((dropMisaligned X Y xa xb).1.blocks.isEmpty || (dropMisaligned X Y xa xb).2.blocks.isEmpty) with
-  | true =>
-    obtain ⟨h1, _, _⟩ := viaFused_empty X Y (freeAxes X.ndim xa) xa xb (freeAxes Y.ndim xb) hbl
-    rw [h1] at hc0
-    cases hc0
-    intro K V hl
-    simp [alookup] at hl
-  | false =>
-    have e := tensordotViaFused_ab X Y (freeAxes X.ndim xa) xa xb (freeAxes Y.ndim xb)
-    rw [hc0] at e
-    exact viaFused_general_shape (ab X) (ab Y) xa xb (ab_validB hvX hpX) (ab_validB hvY hpY) rfl rfl
-      hsym hc hnA hnB hA hB hneK hneL hneR hbl (ab c) e
-
-/-- **the kernel call agrees** when all three groups are non-empty -/
-theorem kernelOk_general [AddCommMonoid R] [Mul R] [Neg R]
-    (hz1 : ∀ x : R, 0 * x = 0) (hz2 : ∀ x : R, x * 0 = 0) (X Y : Arr R) (xa xb : List Nat)
-    (hvX : ValidP.Valid X) (hvY : ValidP.Valid Y) (hpX : X.phases = []) (hpY : Y.phases = [])
-    (hsym : X.sym = Y.sym) (hc : ValidP.contractibleB X Y xa xb = true)
-    (hnA : xa.Nodup) (hnB : xb.Nodup) (hA : ∀ x ∈ xa, x < X.ndim) (hB : ∀ x ∈ xb, x < Y.ndim)
-    (hneK : xa ≠ []) (hneL : freeAxes X.ndim xa ≠ []) (hneR : freeAxes Y.ndim xb ≠ []) :
-    KernelOk X Y xa xb := by
-  obtain ⟨c, h1, h2, h3⟩ := viaFused_synced_all hz1 hz2 X Y xa xb hvX hvY hpX hpY hsym hc hnA hnB hA hB
-    hneK hneL hneR
-  exact ⟨c, h1, h2, h3, viaFused_synced_shape X Y xa xb hvX hvY hpX hpY hsym hc hnA hnB hA hB
-    hneK hneL hneR c h1⟩
 
 /-! ### `tensordot_fermionic` from the kernel call -/
 
@@ -95,6 +61,7 @@ theorem tensordotF_core_of_kernel [AddCommMonoid R] [Mul R] [Neg R] [SignRing R]
     (hK : KernelOk (ValidP.tdF34 a b xa xb).1.phaseSync (ValidP.tdF34 a b xa xb).2.phaseSync
       ((List.range a.ndim).drop (a.ndim - xa.length)) (List.range xa.length)) :
     ∃ cm, SameView cm (coreT a b xa xb) ∧ cm.sectors.Nodup
+      ∧ List.Forall₂ SizeLe cm.indices (without a.indices xa ++ without b.indices xb)
       ∧ (∀ K V, alookup cm.blocks K = some V →
           Arr.blockShape? (without a.indices xa ++ without b.indices xb) K = some V.shape)
       ∧ a.tensordotF b (.pair (xa.map Int.ofNat) (xb.map Int.ofNat)) mode
@@ -118,7 +85,7 @@ theorem tensordotF_core_of_kernel [AddCommMonoid R] [Mul R] [Neg R] [SignRing R]
       (freeAxes (ValidP.tdF34 a b xa xb).2.phaseSync.ndim (List.range xa.length)) := rfl
   generalize (ValidP.tdF34 a b xa xb).1.phaseSync = X at *
   generalize (ValidP.tdF34 a b xa xb).2.phaseSync = Y at *
-  obtain ⟨cm, hcm, hsv, hnd, hshape⟩ := hK
+  obtain ⟨cm, hcm, hsv, hnd, hframe, hshape⟩ := hK
   have hk : xa.length ≤ a.ndim := by have := freeAxes_length hnA hA; omega
   have hk' : xb.length ≤ b.ndim := by have := freeAxes_length hnB hB; omega
   have hA' : ∀ i ∈ (List.range a.ndim).drop (a.ndim - xa.length), i < X.ndim := by
@@ -137,7 +104,7 @@ theorem tensordotF_core_of_kernel [AddCommMonoid R] [Mul R] [Neg R] [SignRing R]
         have hxl := List.length_pos_iff.mpr hne
         simp at this; omega
       rw [tensordotA_auto_fused X Y _ _ _ hparse hneK]; exact hcm
-  refine ⟨cm, by rw [hcT]; exact hsv, hnd, ?_, ?_⟩
+  refine ⟨cm, by rw [hcT]; exact hsv, hnd, by rwa [e1, e2] at hframe, ?_, ?_⟩
   · intro K V hl
     have := hshape K V hl
     rwa [e1, e2] at this
@@ -165,11 +132,13 @@ theorem tensordotF_modes_of_kernel [AddCommMonoid R] [Mul R] [Neg R] [SignRing R
           ∧ rm.oddpos = rb.oddpos ∧ rm.charge = rb.charge ∧ rm.sym = rb.sym ∧ rm.fermi = rb.fermi
           ∧ rm.indices.length = rb.indices.length
           ∧ (∀ s ∈ rb.sectors, s ∈ rm.sectors)
+          ∧ rm.sectors.Nodup
+          ∧ List.Forall₂ SizeLe rm.indices (without a.indices xa ++ without b.indices xb)
           ∧ (∀ K V, alookup rm.blocks K = some V →
               Arr.blockShape? (without a.indices xa ++ without b.indices xb) K = some V.shape)
           ∧ (∀ K V, alookup rm.blocks K = some V → ∀ J, inBox V.shape J = true →
               rm.elem K J = rb.elem K J)) := by
-  obtain ⟨cm, hsv, hnd, hshape, hcall⟩ := tensordotF_core_of_kernel a b xa xb h mode hmode hK
+  obtain ⟨cm, hsv, hnd, hframe, hshape, hcall⟩ := tensordotF_core_of_kernel a b xa xb h mode hmode hK
   have hbw := tensordotF_eq_core a b xa xb h
   have F := coreT_frame a b xa xb h
   rw [hcall, hbw]
@@ -183,7 +152,8 @@ theorem tensordotF_modes_of_kernel [AddCommMonoid R] [Mul R] [Neg R] [SignRing R
     have hSm : Lazy.SignOk cm := ⟨hnd, by rw [hsv.phases, F.phases]; exact Lazy.PhOk.nil⟩
     have hSb : Lazy.SignOk (coreT a b xa xb) := AssocP.coreFrame_signOk F
     refine ⟨by rw [g6, k6], by rw [g1, k1, hsv.charge], by rw [g2, k2, hsv.sym],
-      by rw [g3, k3, hsv.fermi], by rw [g4, k4, hsv.rank], ?_, ?_, ?_⟩
+      by rw [g3, k3, hsv.fermi], by rw [g4, k4, hsv.rank], ?_, by rw [g5]; exact hnd,
+      by rw [g4]; exact hframe, ?_, ?_⟩
     · intro s hs; rw [k5] at hs; rw [g5]; exact hsv.sectors s hs
     · intro K V hl
       rw [finish_blocks] at hl
